@@ -116,7 +116,19 @@ class ContractTable:
             owners = [c for c in self.prog.concrete_expression_classes() if attr in self.instance_attrs(c)]
             if not owners:
                 raise Raise(I.bi.make_exc("AttributeError", f"expression object has no attribute {attr}"), I.where())
-            raise Unsupported(f"attribute {attr} of unknown-class object {o.name} (unguarded access; only {[c.name for c in owners]} have it)")
+            # the object is of one of the classes that have the attribute (then its structure
+            # becomes available), or of another class (AttributeError)
+            depth = o.name.count("._inner") + o.name.count("._left") + o.name.count("._right") + o.name.count("._inners[")
+            if depth >= 3:
+                raise Unsupported(f"attribute {attr} of unknown-class object {o.name}: class case analysis deeper than 3 levels "
+                                  f"(a loop or recursion over the tree that does not go through a method under contract)")
+            opts = [o.ghost["tag"] == sym.CLS[c.name] for c in owners]
+            opts.append(z3.And(*[o.ghost["tag"] != sym.CLS[c.name] for c in owners]))
+            j = I.path.choose(opts, f"class-of({o.name})")
+            if j == len(owners):
+                raise Raise(I.bi.make_exc("AttributeError", f"object has no attribute {attr}"), I.where())
+            self.refine(I, o, owners[j])
+            return I.obj_getattr(o, attr)
         raise Unsupported(f"attribute {attr} of refined child {o.name}")
 
     def instance_attrs(self, cls):
